@@ -6,6 +6,7 @@ import sys
 sys.path.insert(0, os.path.dirname(os.path.abspath(__file__)))
 import checklib
 import clientgen
+import clientnet
 import vlib
 from checklib import Suite
 
@@ -99,6 +100,8 @@ def suites(tier, rng, replay):
 
 
 def keyfn(rec):
+    if rec.get("suite") == "clientnet":
+        return clientnet.key_for(rec)
     if rec.get("suite") == "sendmachine":
         ops = rec.get("ops", [])
         step = rec.get("step", 0)
@@ -108,8 +111,13 @@ def keyfn(rec):
     return clientgen.keyfn(rec)
 
 
+def extra(tier, rng, workdir):
+    return clientnet.evaluate("C18", tier, rng, workdir)
+
+
 SPEC = {
     "pid": "C18",
+    "extra": extra,
     "props_file": "props/C18.v",
     "suites": suites,
     "keyfn": keyfn,
